@@ -439,6 +439,7 @@ class Env(fsseam.FsEnv):
         self.sim.log("write", name, len(data), done)
         if cur is not None:
             cur["written"] += done
+            cur["nwrites"] = cur.get("nwrites", 0) + 1
             if cur["written"] < len(cur["line"] or b""):
                 # the file is now cut short inside this record for every reader that runs
                 self.hist.partial_now.add(name)
@@ -601,6 +602,7 @@ class NodeRunner:
             rec["start"] = st["start"]
             rec["torn"] = st["torn"]
             rec["written"] = st["written"]
+            rec["one_piece"] = st.get("nwrites", 0) == 1 and st["written"] == len(st["line"] or b"")
             self.hist.cur_send.pop(name, None)
             self.hist.partial_now.discard(name)
             self.sim.log("send-return", name, op["serial"], rec["acked"], rec["exc"])
@@ -1180,7 +1182,14 @@ def check_history(spec, hist: History, path, gremlin: Gremlin, sim: Sim, rt_fail
                 # the simulator damaged this record on disk at some instant: a reader that had it buffered before may
                 # still hand it out, later than records appended meanwhile; nothing is asserted about its position
                 continue
-            offs = [rec["start"]] + gremlin.dups.get(s, []) if rec["start"] is not None else []
+            # where the record physically is in the final file — not where its first raw write landed: with short writes a
+            # record can be completed elsewhere (another writer's identical first bytes + this writer's remainder)
+            offs = list(positions.get(s, []))
+            if rec.get("one_piece") and rec["start"] is not None and rec["start"] not in offs:
+                offs.append(rec["start"])  # written in one piece there, even if a neighbour's damage has since glued it to another line
+            offs.sort()
+            if not offs:
+                continue  # nowhere in one piece: no position to compare
             nxt = [o for o in offs if o > last_off]
             if not nxt:
                 raise Violation("order", f"{inc['node']}#{inc['idx']} received serial {s} (file offset {offs}) after offset {last_off}", "-")
